@@ -417,6 +417,77 @@ def run(ctx):
     for i in bad:
         ctx.mismatch("C19.Model.periodogram (index logic, |.|^2/n) vs _estspec.periodogram", meta[i])
 
+    # ================= periodogram / ar_periodogram index logic for EVERY n in 1..200 (both tiers), with and without window:
+    # the returned frequencies must be exactly 2*pi*j/m for j = 0..m//2 (count and values), one ordinate per frequency
+    from quantecon._estspec import ar_periodogram
+    cases, meta = [], []
+
+    def check_freqs(inp, w, I, m):
+        k = m // 2 + 1
+        if len(w) != k or len(I) != k:
+            ctx.fail("periodogram_indices", "number of returned frequencies/ordinates is not m//2+1", inp, [len(w), len(I)], k)
+            return False
+        if any(abs(w[j] - 2 * math.pi * j / m) > 1e-12 for j in range(k)):
+            ctx.fail("periodogram_indices", "frequencies are not 2*pi*j/m, j=0..m//2", inp, w[:6], [2 * math.pi * j / m for j in range(min(k, 6))])
+            return False
+        return True
+
+    for n in range(1, 201):
+        x = [rng.randrange(-40, 41) / 8.0 for _ in range(n)]
+        xa = np.array(x)
+        ctx.count("pgram_all:" + ("even" if n % 2 == 0 else "odd"))
+        for window, wl in ((None, 7), ("hanning", 7), ("flat", 5)):
+            inp = {"function": "periodogram", "x": x, "window": window, "window_len": wl}
+            ctx.case(("pgram_all", n, window, tuple(x)), nontrivial=(n >= 3))
+            too_short = window is not None and n // 2 + 1 < wl
+            try:
+                w, I = periodogram(xa, window=window, window_len=wl)
+                err = None
+            except Exception as e:       # noqa
+                err = type(e).__name__
+            if too_short:
+                if err != "ValueError":
+                    ctx.fail("periodogram_window_guard", "smoothing a periodogram shorter than the window must raise ValueError", inp, err, "ValueError")
+                continue
+            if err is not None:
+                ctx.fail("raises_on_admissible_input", "periodogram raised " + err, inp, err, "a value")
+                continue
+            w, I = [float(v) for v in w], [float(v) for v in I]
+            okf = check_freqs(inp, w, I, n)
+            if window is None:
+                F = np.fft.fft(xa)
+                if okf and any(abs(a - (abs(F[j]) ** 2) / n) > 1e-9 * (1 + abs(a)) for j, a in enumerate(I)):
+                    ctx.fail("periodogram_value", "periodogram != |FFT|^2/n", inp, I[:5], None)
+                cases.append(tup("[" + "; ".join(tup(qlit(frac(c.real)), qlit(frac(c.imag))) for c in F) + "]",
+                                 "[" + "; ".join(tup(qlit(frac(a / (2 * math.pi))), qlit(frac(b))) for a, b in zip(w, I)) + "]"))
+                meta.append(inp)
+        if n >= 4:
+            for window in (None, "hanning"):
+                inp = {"function": "ar_periodogram", "x": x, "window": window}
+                ctx.case(("arpgram_all", n, window, tuple(x)), nontrivial=True)
+                m = n - 1
+                too_short = window is not None and m // 2 + 1 < 7
+                try:
+                    w, I = ar_periodogram(xa, window=window)
+                    err = None
+                except Exception as e:       # noqa
+                    err = type(e).__name__
+                if err == "LinAlgError":     # constant lagged series: singular regression, not an index question
+                    ctx.count("arpgram:singular")
+                    continue
+                if too_short:
+                    if err != "ValueError":
+                        ctx.fail("periodogram_window_guard", "smoothing a periodogram shorter than the window must raise ValueError", inp, err, "ValueError")
+                    continue
+                if err is not None:
+                    ctx.fail("raises_on_admissible_input", "ar_periodogram raised " + err, inp, err, "a value")
+                    continue
+                check_freqs(inp, [float(v) for v in w], [float(v) for v in I], m)
+    ok = "fun c => let '(dft, out) := c in QQs_close %s (periodogram dft) out" % T9
+    bad = ctx.coq_check("periodogram_every_n", IMPORTS, "list (Q * Q) * list (Q * Q)", ok, cases, chunk=13, preamble=PRE)
+    for i in bad:
+        ctx.mismatch("C19.Model.periodogram (index logic for every n) vs _estspec.periodogram", meta[i])
+
 
 def replay(data):
     """Re-run the first recorded failing input against the current implementation and print the oracle's verdict."""
